@@ -7,9 +7,13 @@ import CfdpVerif.Props.C17
 # C03 — acknowledged mode recovers from bounded loss, duplication and reordering
 
 The full statement is a liveness property of two communicating state machines under an adversarial
-link; it is NOT proved here as one theorem (DESIGN.md §6 C03, stage 4).  Proved as whole-run
-theorems about the receiver model, for every file, segment length, header configuration and checksum
-type: `C03_single_loss_recovery` (any one File Data PDU but the last never arrives: exactly one NAK
+link; it is NOT proved here as one theorem (DESIGN.md §6 C03, stage 4).  Proved as a whole-run
+theorem about BOTH models talking to each other, for every file, segment length, position of the
+lost tile, header configuration and checksum type: `C03_end_to_end_single_loss` (the sender's run,
+one File Data PDU lost on the link, the receiver's NAK for exactly that range, the sender's answer —
+exactly the lost PDU —, verification, the closing handshake, both idle, file byte-identical, one
+successful Transaction-Finished indication on each side).  Proved as whole-run theorems about the
+receiver model: `C03_single_loss_recovery` (any one File Data PDU but the last never arrives: exactly one NAK
 with exactly the missing range, the retransmission completes the file, verification, Finished PDU,
 idle, file byte-identical) and `C03_tail_loss_recovery` (everything from some offset on is missing at
 the EOF).  Proved are the safety half
@@ -646,13 +650,17 @@ theorem C03_single_loss_recovery (env env2 env3 env4 : Env) (d0 : DestSt) (h hac
       stateMachine env (some (.fd h b ((F.drop b).take seg))) d2 = .ok () d3 ∧
       feedSeg env h F seg k (min (b + seg) F.length) d3 = some d4 ∧
       stateMachine env (some (.eof h ccNoError crc F.length none)) d4 = .ok () d5 ∧
+      d5.queue = [mkAck d1.p.conf dtEof ccNoError tsActive] ∧
       stateMachine env2 none (drained d5) = .ok () d6 ∧
       d6.queue = [mkNak d1.p.conf 0 F.length [(a, b)]] ∧
       stateMachine env3 (some (.fd h a ((F.drop a).take (b - a)))) (drained d6) = .ok () d7 ∧
       d7.queue = [mkFin d1.p.conf ⟨ccNoError, dcComplete, fsRetained, none⟩] ∧
       stateMachine env4 (some (.ack hack dtFinished cond ts)) (drained d7) = .ok () d8 ∧
       d8.state = .idle ∧ d8.queue = [] ∧ d8.flts = [] ∧
-      d8.fs.get dname = some (.file F) ∧ (∀ q, q ≠ dname → d8.fs.get q = d0.fs.get q) := by
+      d8.fs.get dname = some (.file F) ∧ (∀ q, q ≠ dname → d8.fs.get q = d0.fs.get q) ∧
+      d8.inds.filter isFinished = d0.inds.filter isFinished ++
+        (if env3.cfg.indFinished
+          then [.finished (some ⟨h.src, h.seq⟩) ⟨ccNoError, dcComplete, fsRetained, none⟩] else []) := by
   have hab : a < b := by omega
   have haF : a ≤ F.length := by omega
   -- Metadata and the tiles before the lost one
@@ -697,7 +705,8 @@ theorem C03_single_loss_recovery (env env2 env3 env4 : Env) (d0 : DestSt) (h hac
       (drained (afterDeferred env2 (drained (afterEofA env d4 ⟨h.src, h.seq⟩ crc F.length)) F a b rc))
       dname F a b ⟨h.src, h.seq⟩ rc ⟨env2.now, rc.nakMs⟩)) rc hack cond ts ha4 hR4.hbusy rfl rfl
     (by simp [drained, afterRetransmission, doneP, afterDeferred, defP, afterEofA, eofP, hR4.hconf, ha.hmode])
-  refine ⟨_, d2, _, d4, _, _, _, _, hmd, hfeed, hgap, hfs, heof, hdef, ?_, hret, ?_, hfa, rfl, rfl, ?_, ?_, ?_⟩
+  refine ⟨_, d2, _, d4, _, _, _, _, hmd, hfeed, hgap, hfs, heof, ?_, hdef, ?_, hret, ?_, hfa, rfl, rfl, ?_, ?_, ?_, ?_⟩
+  · simp [afterEofA, hR4.hconf, afterMdA, mdParamsA]
   · simp [afterDeferred, drained, afterEofA, eofP, hR4.hconf, afterMdA, mdParamsA]
   · simp [afterRetransmission, drained, afterDeferred, defP, afterEofA, eofP, hR4.hconf, afterMdA, mdParamsA]
   · simp [drained, afterRetransmission, afterDeferred, afterEofA, hR4.hflts]
@@ -708,6 +717,13 @@ theorem C03_single_loss_recovery (env env2 env3 env4 : Env) (d0 : DestSt) (h hac
     simp only [afterGap]
     rw [Fs.C17.get_set_other _ _ _ _ hq', hother2 q hq']
     simp [afterMdA, Fs.C17.get_set_other _ _ _ _ hq']
+  · simp only [drained, afterRetransmission, afterDeferred, afterEofA, List.filter_append, hfin4]
+    simp only [afterGap, List.filter_append, hfin2]
+    have h1 : (afterMdA env d0 h rc closure cks F.length sname dname msgs).inds.filter isFinished =
+        d0.inds.filter isFinished := by simp [afterMdA, isFinished]
+    rw [h1]
+    cases env.cfg.indSegRecv <;> cases env.cfg.indEofRecv <;> cases env3.cfg.indSegRecv <;>
+      cases env3.cfg.indFinished <;> simp [isFinished]
 
 /-! ### the tail of the file is lost -/
 
@@ -819,4 +835,511 @@ theorem C03_tail_loss_recovery (env env2 env3 env4 : Env) (d0 : DestSt) (h hack 
     rw [Fs.C17.get_set_other _ _ _ _ hq', hother2 q hq']
     simp [afterMdA, Fs.C17.get_set_other _ _ _ _ hq']
 
+/-! ## The two models composed: a lost File Data PDU is requested, re-sent and the transfer completes -/
+
+/-- the chunk list for one full segment is the single original tile -/
+theorem chunkPdus_one_segment (conf : Hdr) (F : List UInt8) (seg a : Nat) (hseg : 0 < seg) :
+    Source.C08.chunkPdus conf F seg seg a seg = [Source.mkFd conf a ((F.drop a).take seg)] := by
+  obtain ⟨n, rfl⟩ : ∃ n, seg = n + 1 := ⟨seg - 1, by omega⟩
+  cases n with
+  | zero => simp [Source.C08.chunkPdus]
+  | succ n => simp [Source.C08.chunkPdus]
+
+def retransS (s : Source.SrcSt) (q : List Pdu) : Source.SrcSt :=
+  { s with queue := q, numReady := s.numReady + q.length, stepBefore := some .WAITING_FOR_FINISHED,
+           step := .RETRANSMITTING }
+
+/-- **NAK at the sender while it waits for the Finished PDU**: a request for one full segment inside
+the file is served with exactly the original File Data PDU of that segment; the sender remembers the
+step to resume in. -/
+theorem C03_sender_serves_request (env : Source.Env) (s : Source.SrcSt) (rc : RemoteCfg) (h : Hdr)
+    (req : Source.PutReq) (src : String) (F : List UInt8) (a b sos eos : Nat)
+    (ha : AdmissibleS env s rc h) (hb : s.state = .busy) (hstep : s.step = .WAITING_FOR_FINISHED)
+    (hq : s.queue = []) (hreq : s.putReq = some req) (hsrc : req.src = some src)
+    (hfile : s.fs.get src = some (.file F)) (hseg : 0 < s.p.segmentLen) (hab : b = a + s.p.segmentLen)
+    (hbp : b ≤ s.p.progress) :
+    Source.stateMachine env (some (.nak h sos eos [(a, b)])) s =
+      .ok () (retransS s [Source.mkFd s.p.conf a ((F.drop a).take s.p.segmentLen)]) := by
+  have hserve := Source.C08.C08_valid_request_served s req src F a b hreq hsrc hfile hseg (by omega) (by omega) hbp
+  have hba : b - a = s.p.segmentLen := by omega
+  rw [hba, chunkPdus_one_segment _ _ _ _ hseg, hq] at hserve
+  msimp [Source.stateMachine, Source.checkInsertedPacket, Pdu.hdr, ha.hdir, ha.hsrc, ha.hrc, ha.hdst, ha.hseq,
+    Pdu.kind, Route.getPacketDestination, ha.hmode, hstep, hb, Source.fsmNonIdle,
+    Source.fsmAdvancementAfterPacketsWereSent, hq, hreq, Source.fsmFromSendingFileData, Source.fsmFromSendingEof,
+    Source.fsmFromWaitingForEofAck,
+    Source.fsmFromWaitingForFinished, Source.handleWaitForFinish, Source.transmissionMode,
+    Source.handleRetransmission, Source.handleSegmentReqs, hserve, Source.modP, Source.getP, Source.addPacket,
+    Source.fsmFromNoticeOfCompletion, retransS]
+
+/-- **Finished PDU at the sender after a retransmission**: once the re-sent PDUs were retrieved, the
+call resumes the step the sender was in and handles the Finished PDU there -/
+theorem C03_sender_finished_after_retransmission (env : Source.Env) (s : Source.SrcSt) (rc : RemoteCfg) (h : Hdr)
+    (fp : FinishedParams) (req : Source.PutReq)
+    (ha : AdmissibleS env s rc h) (hb : s.state = .busy) (hstep : s.step = .RETRANSMITTING)
+    (hsb : s.stepBefore = some .WAITING_FOR_FINISHED)
+    (hq : s.queue = []) (hreq : s.putReq = some req) :
+    Source.stateMachine env (some (.fin h fp)) s =
+      .ok () (afterFinS (waitFinS s) fp) := by
+  msimp [Source.stateMachine, Source.checkInsertedPacket, Pdu.hdr, ha.hdir, ha.hsrc, ha.hrc, ha.hdst, ha.hseq,
+    Pdu.kind, Route.getPacketDestination, ha.hmode, hstep, hb, Source.fsmNonIdle,
+    Source.fsmAdvancementAfterPacketsWereSent, hq, hreq, hsb, Source.fsmFromSendingFileData, Source.fsmFromSendingEof,
+    Source.fsmFromWaitingForEofAck,
+    Source.fsmFromWaitingForFinished, Source.handleWaitForFinish, Source.transmissionMode,
+    Source.handleRetransmission, Source.modP, Source.getP, Source.addPacket,
+    Source.fsmFromNoticeOfCompletion, finSrcP, afterFinS, waitFinS]
+
+/-! ### the sender's tiles as the receiver-side feeds -/
+
+theorem range_succ_map {α} (f : Nat → α) (k : Nat) :
+    (List.range (k + 1)).map f = f 0 :: (List.range k).map (fun i => f (i + 1)) := by
+  rw [List.range_succ_eq_map]; simp [List.map_map, Function.comp_def]
+
+theorem tile_shift (conf : Hdr) (F : List UInt8) (seg off i : Nat) :
+    Source.C07.tile conf F seg off (i + 1) = Source.C07.tile conf F seg (off + seg) i := by
+  have : off + (i + 1) * seg = off + seg + i * seg := by rw [Nat.add_mul, Nat.one_mul]; omega
+  simp [Source.C07.tile, this]
+
+/-- tiles that all lie inside the file, fed as PDUs = fed as in-order payloads -/
+theorem feedPdus_tiles_eq_feed (env : Dest.Env) (conf : Hdr) (F : List UInt8) (seg : Nat) :
+    ∀ (j off : Nat) (d : DestSt), off + j * seg ≤ F.length →
+      feedPdus env ((List.range j).map (Source.C07.tile conf F seg off)) d =
+        feed env { conf with dir := .toRecv } ((List.range j).map fun i => (F.drop (off + i * seg)).take seg) off d := by
+  intro j
+  induction j with
+  | zero => intro off d _; simp [feedPdus, feed]
+  | succ j ih =>
+    intro off d hle
+    rw [range_succ_map, range_succ_map]
+    have h1 : off + seg + j * seg ≤ F.length := by rw [Nat.add_mul, Nat.one_mul] at hle; omega
+    have hlen : ((F.drop (off + 0 * seg)).take seg).length = seg := by
+      simp [List.length_take, List.length_drop]; omega
+    have ht0 : Source.C07.tile conf F seg off 0 = .fd { conf with dir := .toRecv } off ((F.drop off).take seg) := by
+      simp [Source.C07.tile, Source.mkFd]
+    simp only [tile_shift, feedPdus, feed, ht0, Nat.zero_mul, Nat.add_zero]
+    cases hc : stateMachine env (some (.fd { conf with dir := .toRecv } off ((F.drop off).take seg))) d with
+    | error _ _ => rfl
+    | ok _ d' =>
+      simp only
+      have hl : ((F.drop off).take seg).length = seg := by simpa using hlen
+      rw [hl, ih (off + seg) d' h1]
+      congr 2
+      funext i
+      have : off + (i + 1) * seg = off + seg + i * seg := by rw [Nat.add_mul, Nat.one_mul]; omega
+      rw [this]
+
+theorem chunks_flatten (F : List UInt8) (seg : Nat) :
+    ∀ j, ((List.range j).map fun i => (F.drop (0 + i * seg)).take seg).flatten = F.take (j * seg) := by
+  intro j
+  induction j with
+  | zero => simp
+  | succ j ih =>
+    rw [List.range_succ, List.map_append, List.flatten_append, ih]
+    simp only [List.map_cons, List.map_nil, List.flatten_cons, List.flatten_nil, List.append_nil, Nat.zero_add]
+    rw [Nat.add_mul, Nat.one_mul, List.take_add]
+
+/-- tiles behind the hole, fed as PDUs = `feedSeg` -/
+theorem feedPdus_tiles_eq_feedSeg (env : Dest.Env) (conf : Hdr) (F : List UInt8) (seg : Nat) :
+    ∀ (k m : Nat) (d : DestSt), (k = 0 ∨ m + (k - 1) * seg < F.length) →
+      feedPdus env ((List.range k).map (Source.C07.tile conf F seg m)) d =
+        feedSeg env { conf with dir := .toRecv } F seg k m d := by
+  intro k
+  induction k with
+  | zero => intro m d _; simp [feedPdus, feedSeg]
+  | succ k ih =>
+    intro m d hk
+    rw [range_succ_map]
+    have ht0 : Source.C07.tile conf F seg m 0 = .fd { conf with dir := .toRecv } m ((F.drop m).take seg) := by
+      simp [Source.C07.tile, Source.mkFd]
+    simp only [tile_shift, feedPdus, feedSeg, ht0]
+    cases hc : stateMachine env (some (.fd { conf with dir := .toRecv } m ((F.drop m).take seg))) d with
+    | error _ _ => rfl
+    | ok _ d' =>
+      simp only
+      by_cases h0 : k = 0
+      · subst h0; simp [feedPdus, feedSeg]
+      · have hlt : m + k * seg < F.length := by simpa using hk
+        have hk2 : k = (k - 1) + 1 := by omega
+        have hms : m + seg + (k - 1) * seg < F.length := by
+          rw [hk2, Nat.add_mul, Nat.one_mul] at hlt; omega
+        have hmin : min (m + seg) F.length = m + seg := by
+          have : m + seg ≤ m + seg + (k - 1) * seg := Nat.le_add_right _ _
+          omega
+        rw [hmin, ← ih (m + seg) d' (Or.inr hms)]
+
+/-! ### the sender up to the point where it waits for the Finished PDU -/
+
+/-- sender of an acknowledged transfer that has sent everything, had its EOF acknowledged and waits
+for the Finished PDU -/
+structure WaitingFinS (s : Source.SrcSt) (req : Source.PutReq) (src : String) (F : List UInt8) (seg : Nat)
+    (conf : Hdr) (rc : RemoteCfg) (tid : Tid) : Prop where
+  hbusy : s.state = .busy
+  hstep : s.step = .WAITING_FOR_FINISHED
+  hqueue : s.queue = []
+  hreq : s.putReq = some req
+  hsrc : req.src = some src
+  hfile : s.fs.get src = some (.file F)
+  hseg : s.p.segmentLen = seg
+  hprog : s.p.progress = F.length
+  hconf : s.p.conf = conf
+  hrc : s.p.remoteCfg = some rc
+  htid : s.p.tid = some tid
+
+open Source.C07 Source.C19 in
+/-- the sender's run up to there: Metadata, the `k` tiles, the EOF; the ACK (EOF) comes back -/
+theorem C03_sender_run_to_waiting (envS : Source.Env) (s : Source.SrcSt)
+    (req : Source.PutReq) (rcS : RemoteCfg) (src dst : String) (F crc : List UInt8) (seg k : Nat)
+    (hA : Hdr) (cA tA : Nat) (now2 : Nat)
+    (hst : s.state = .busy) (hstep : s.step = .IDLE) (hq : s.queue = []) (hreq : s.putReq = some req)
+    (hpmo : s.p.metadataOnly = false) (hsrc : req.src = some src) (hdst : req.dst = some dst)
+    (hfile : s.fs.get src = some (.file F)) (hF : F ≠ []) (hprog : s.p.progress = 0)
+    (hrc : s.p.remoteCfg = some rcS) (hbits : s.prov.bits = 8 ∨ s.prov.bits = 16 ∨ s.prov.bits = 32)
+    (hseg : Source.segLenOf rcS (startConf envS req rcS s (decide (F.length > 4294967295))) = some seg)
+    (hseg0 : 0 < seg) (hmode : s.p.conf.mode = .ack) (hct : s.p.checkTimer = none)
+    (hk : (k - 1) * seg < F.length ∧ F.length ≤ k * seg)
+    (hcks : Checksum.calcChecksum (Checksum.CksType.ofNat rcS.cks) F F.length seg = .ok crc)
+    (hnull : Checksum.CksType.ofNat rcS.cks ≠ .null) (hlen : crc.length = 4) (hack : rcS.ackMs ≠ 0)
+    (hAdir : hA.dir = .toSend) (hAsrc : hA.src.val = envS.cfg.entityId.val) (hAdst : hA.dst.val = rcS.entityId.val)
+    (hAseq : hA.seq.val = s.prov.next) :
+    let conf := startConf envS req rcS s (decide (F.length > 4294967295))
+    let tid : Tid := ⟨envS.cfg.entityId, ⟨s.prov.next, s.prov.bits / 8⟩⟩
+    ∃ s3 s4,
+      rounds envS (1 + k + 1) s = some
+        ([Source.mkMd conf s.p.closure rcS.cks F.length (some src) (some dst) (some (req.msgs.getD []))] ++
+          (List.range k).map (tile conf F seg 0) ++ [Source.mkEof conf ccNoError crc F.length], s3) ∧
+      Source.stateMachine ⟨envS.cfg, now2⟩ (some (.ack hA dtEof cA tA)) s3 = .ok () s4 ∧
+      WaitingFinS s4 req src F seg conf rcS tid ∧
+      s4.fs = s.fs ∧ s4.flts = s.flts ∧ s4.inds.filter isFinished = s.inds.filter isFinished := by
+  intro conf tid
+  have hk1 : 1 ≤ k := by
+    rcases Nat.eq_zero_or_pos k with h0 | h0
+    · subst h0
+      have : F.length = 0 := by have := hk.2; omega
+      exact absurd (List.eq_nil_of_length_eq_zero this) hF
+    · exact h0
+  obtain ⟨hcall1, hS1⟩ := C07_metadata_call envS s req rcS src dst F seg hst hstep hq hreq hpmo hsrc hdst hfile hF
+    hprog hrc hbits hseg hseg0
+  obtain ⟨s2, hr2, hp2, hc2, hsg2, hst2, hS2, hFr2⟩ := C07_stream_tiles envS req src F k _ hS1
+    (Or.inr (by simp only [Source.C07.drained, afterMetadata, hprog, Nat.zero_add]; exact hk.1))
+  have hstep2 : s2.step = .SENDING_FILE_DATA := hst2.resolve_left (by omega)
+  have hprog2 : s2.p.progress = s2.p.fileSize := by
+    rw [hp2, hS2.hsize]; simp only [Source.C07.drained, afterMetadata, hprog, Nat.zero_add]
+    exact Nat.min_eq_left hk.2
+  simp only [Frame] at hFr2
+  obtain ⟨f1, f2, f3, f4, f5, f6, f7, f8, f9, f10, f11, f12, f13, f14, f15, f16⟩ := hFr2
+  have hmode2 : s2.p.conf.mode = .ack := by
+    rw [hc2]; simp [Source.C07.drained, afterMetadata, startConf, hmode]
+  have hcall3 := C07_eof_call_ack envS s2 req rcS src F crc tid hS2.hbusy hstep2 hS2.hqueue hS2.hreq hS2.hsrc
+    hS2.hnotMo hS2.hfile hS2.hsize hprog2 (by rw [f1]; simp [Source.C07.drained, afterMetadata, hrc])
+    (by rw [f2]; simp [Source.C07.drained, afterMetadata, tid])
+    (by rw [hsg2]; simpa [Source.C07.drained, afterMetadata] using hcks) hnull hlen hack hmode2
+  let s3 := Source.C07.drained (afterEofS envS (condS s2) rcS crc tid F.length)
+  have hconf3 : s3.p.conf = conf := by
+    show s2.p.conf = conf
+    rw [hc2]; simp [Source.C07.drained, afterMetadata, conf]
+  have hrc3 : s3.p.remoteCfg = some rcS := by
+    show s2.p.remoteCfg = some rcS
+    rw [f1]; simp [Source.C07.drained, afterMetadata, hrc]
+  have hadm : AdmissibleS ⟨envS.cfg, now2⟩ s3 rcS hA :=
+    { hdir := hAdir, hsrc := hAsrc, hrc := hrc3, hdst := hAdst,
+      hseq := by rw [hconf3]; simpa [conf, startConf] using hAseq,
+      hmode := by rw [hconf3]; simp [conf, startConf, hmode] }
+  have hreq3 : s3.putReq = some req := by
+    show s2.putReq = some req
+    exact hS2.hreq
+  have hct3 : s3.p.checkTimer = none := by
+    show s2.p.checkTimer = none
+    rw [f15]; simp [Source.C07.drained, afterMetadata, hct]
+  have h4 := C02_source_eof_acked ⟨envS.cfg, now2⟩ s3 rcS hA cA tA req hadm hS2.hbusy rfl rfl hreq3 hct3
+  have hrun : rounds envS (1 + k + 1) s = some
+      ([Source.mkMd conf s.p.closure rcS.cks F.length (some src) (some dst) (some (req.msgs.getD []))] ++
+        (List.range k).map (tile conf F seg 0) ++ [Source.mkEof conf ccNoError crc F.length], s3) := by
+    rw [rounds_add envS (1 + k) 1 s, rounds_add envS 1 k s]
+    simp only [rounds, round, hcall1, hr2, hcall3]
+    simp [Source.C07.drained, afterMetadata, afterEofS, hprog, hc2, conf, s3, condS]
+  refine ⟨s3, _, hrun, h4, ?_, ?_, ?_, ?_⟩
+  · exact
+      { hbusy := hS2.hbusy, hstep := rfl, hqueue := rfl, hreq := hreq3, hsrc := hS2.hsrc, hfile := hS2.hfile,
+        hseg := by show s2.p.segmentLen = seg; rw [hsg2]; simp [Source.C07.drained, afterMetadata],
+        hprog := by show s2.p.progress = F.length; rw [hprog2, hS2.hsize],
+        hconf := hconf3, hrc := hrc3,
+        htid := by show s2.p.tid = some tid; rw [f2]; simp [Source.C07.drained, afterMetadata, tid] }
+  · simp [Source.C07.drained, afterEofS, condS, f6, afterMetadata, s3]
+  · simp [Source.C07.drained, afterEofS, condS, f5, afterMetadata, s3]
+  · simp only [Source.C07.drained, afterEofS, condS, s3, f4, afterMetadata, List.filter_append]
+    cases envS.cfg.indEofSent <;> simp [isFinished]
+
+theorem map_range_eraseIdx {α} (f : Nat → α) (j r : Nat) :
+    ((List.range (j + 1 + r)).map f).eraseIdx j =
+      (List.range j).map f ++ (List.range r).map (fun i => f (j + 1 + i)) := by
+  rw [List.eraseIdx_eq_take_drop_succ, ← List.map_take, ← List.map_drop, List.take_range,
+    Nat.min_eq_left (by omega)]
+  congr 1
+  rw [List.range_add, List.drop_append_of_le_length (by simp)]
+  have : (List.range (j + 1)).drop (j + 1) = [] := List.drop_of_length_le (by simp)
+  simp [this, List.map_map, Function.comp_def]
+
+open Source.C07 Source.C19 in
+/-- **End to end with one File Data PDU lost, deferred NAK mode: the two models composed.**  The
+sender emits Metadata, `j + 2 + r` tiles and the EOF; the link loses the tile number `j` (any tile but
+the last, bytes `[j·seg, (j+1)·seg)`); everything else reaches the idle receiver in order.  Then:
+the receiver acknowledges the EOF; its next call queues exactly one NAK whose only segment request is
+the lost byte range; the sender answers that NAK with exactly one File Data PDU — the very PDU that
+was lost; the receiver stores it, verifies the checksum and emits the Finished PDU; the sender — in
+the middle of its retransmission step — resumes, records and acknowledges it; the receiver goes idle
+on that ACK, the sender on its next call.  No call of either handler raises; the destination file is
+byte-identical to the source file; both users get exactly one Transaction-Finished indication
+(No error, Data complete, File retained); no fault callback on either side.  For every file, segment
+length, position of the lost tile, header configuration, closure setting and checksum type. -/
+theorem C03_end_to_end_single_loss (envS : Source.Env) (envD : Dest.Env) (s : Source.SrcSt) (d0 : Dest.DestSt)
+    (req : Source.PutReq) (rcS rcD : RemoteCfg) (src dst : String) (F crc : List UInt8) (seg j r maxSegs : Nat)
+    (now2 now3 now4 now5 nowD2 nowD3 nowD4 : Nat)
+    (hst : s.state = .busy) (hstep : s.step = .IDLE) (hq : s.queue = []) (hreq : s.putReq = some req)
+    (hpmo : s.p.metadataOnly = false) (hsrc : req.src = some src) (hdst : req.dst = some dst)
+    (hfile : s.fs.get src = some (.file F)) (hF : F ≠ []) (hprog : s.p.progress = 0)
+    (hrc : s.p.remoteCfg = some rcS) (hrcid : rcS.entityId.val = req.destId.val)
+    (hbits : s.prov.bits = 8 ∨ s.prov.bits = 16 ∨ s.prov.bits = 32)
+    (hseg : Source.segLenOf rcS (startConf envS req rcS s (decide (F.length > 4294967295))) = some seg)
+    (hseg0 : 0 < seg) (hmode : s.p.conf.mode = .ack) (hct : s.p.checkTimer = none)
+    (hk : (j + 1 + r) * seg < F.length ∧ F.length ≤ (j + 2 + r) * seg)
+    (hcks : Checksum.calcChecksum (Checksum.CksType.ofNat rcS.cks) F F.length seg = .ok crc)
+    (hnull : Checksum.CksType.ofNat rcS.cks ≠ .null) (hlen : crc.length = 4) (hack : rcS.ackMs ≠ 0)
+    (ha : AdmissibleA envD rcD { startConf envS req rcS s (decide (F.length > 4294967295)) with dir := .toRecv })
+    (hackD : rcD.ackMs ≠ 0) (hnak : rcD.nakMs ≠ 0) (himm : rcD.imm = false)
+    (hmaxs : maxSegReqs rcD.maxPkt
+      (let c := startConf envS req rcS s (decide (F.length > 4294967295))
+       ⟨.toSend, c.mode, c.crc, c.large, c.src, c.dst, c.seq⟩) = some maxSegs) (hmax1 : 1 ≤ maxSegs)
+    (hidle : d0.state = .idle) (hdq : d0.queue = []) (hdr : d0.numReady = 0) (hrej : d0.rejects = [])
+    (hfl : d0.flts = []) (hnd : Fs.isDir d0.fs dst = false)
+    (hok : (∃ old, d0.fs.get dst = some (.file old)) ∨
+           (Fs.exists' d0.fs dst = false ∧ Fs.parentIsDir d0.fs dst = true)) :
+    let conf := startConf envS req rcS s (decide (F.length > 4294967295))
+    let cd : Hdr := ⟨.toSend, conf.mode, conf.crc, conf.large, conf.src, conf.dst, conf.seq⟩
+    let fpOk : FinishedParams := ⟨ccNoError, dcComplete, fsRetained, none⟩
+    let lost := tile conf F seg 0 j
+    ∃ pdus s3 d5 s4 d6 s5 d7 s6 d8 s7,
+      -- sender: Metadata, tiles, EOF; all but the lost tile reach the receiver, which acknowledges the EOF
+      rounds envS (1 + (j + 2 + r) + 1) s = some (pdus, s3) ∧ pdus[j + 1]? = some lost ∧
+      feedPdus envD (pdus.eraseIdx (j + 1)) d0 = some d5 ∧ d5.queue = [.ack cd dtEof ccNoError tsActive] ∧
+      Source.stateMachine ⟨envS.cfg, now2⟩ (some (.ack cd dtEof ccNoError tsActive)) s3 = .ok () s4 ∧ s4.queue = [] ∧
+      -- receiver: one NAK for exactly the lost range; sender: exactly the lost PDU again
+      Dest.stateMachine ⟨envD.cfg, nowD2⟩ none (drained d5) = .ok () d6 ∧
+      d6.queue = [.nak cd 0 F.length [(j * seg, (j + 1) * seg)]] ∧
+      Source.stateMachine ⟨envS.cfg, now3⟩ (some (.nak cd 0 F.length [(j * seg, (j + 1) * seg)])) s4 = .ok () s5 ∧
+      s5.queue = [lost] ∧
+      -- receiver: complete, Finished; sender acknowledges
+      Dest.stateMachine ⟨envD.cfg, nowD3⟩ (some lost) (drained d6) = .ok () d7 ∧ d7.queue = [.fin cd fpOk] ∧
+      Source.stateMachine ⟨envS.cfg, now4⟩ (some (.fin cd fpOk)) (Source.C07.drained s5) = .ok () s6 ∧
+      s6.queue = [Source.mkAck conf dtFinished ccNoError tsActive] ∧
+      Dest.stateMachine ⟨envD.cfg, nowD4⟩ (some (Source.mkAck conf dtFinished ccNoError tsActive)) (drained d7) = .ok () d8 ∧
+      Source.stateMachine ⟨envS.cfg, now5⟩ none (Source.C07.drained s6) = .ok () s7 ∧
+      -- outcome
+      s7.state = .idle ∧ d8.state = .idle ∧ s7.queue = [] ∧ d8.queue = [] ∧
+      d8.fs.get dst = some (.file F) ∧ (∀ q, q ≠ dst → d8.fs.get q = d0.fs.get q) ∧ s7.fs = s.fs ∧
+      d8.flts = [] ∧ s7.flts = s.flts ∧
+      s7.inds.filter isFinished = s.inds.filter isFinished ++
+        (if envS.cfg.indFinished then [.finished (some ⟨envS.cfg.entityId, ⟨s.prov.next, s.prov.bits / 8⟩⟩) fpOk]
+         else []) ∧
+      d8.inds.filter isFinished = d0.inds.filter isFinished ++
+        (if envD.cfg.indFinished then [.finished (some ⟨conf.src, conf.seq⟩) fpOk] else []) := by
+  intro conf cd fpOk lost
+  have hsrcv : conf.src.val = envS.cfg.entityId.val := by simp [conf, startConf]
+  have hdstv : conf.dst.val = rcS.entityId.val := by simp [conf, startConf, hrcid]
+  have hseqv : conf.seq.val = s.prov.next := by simp [conf, startConf]
+  -- arithmetic of the grid
+  have e1 : (j + 1 + r) * seg = j * seg + seg + r * seg := by simp [Nat.add_mul]
+  have e2 : (j + 2 + r) * seg = j * seg + 2 * seg + r * seg := by simp [Nat.add_mul]
+  have e3 : (j + 1) * seg = j * seg + seg := by simp [Nat.add_mul]
+  have hbF : (j + 1) * seg < F.length := by omega
+  -- sender up to the point where it waits for the Finished PDU
+  obtain ⟨s3, s4, hrun, h4, hW, hfs4, hfl4, hin4⟩ :=
+    C03_sender_run_to_waiting envS s req rcS src dst F crc seg (j + 2 + r) cd ccNoError tsActive now2
+      hst hstep hq hreq hpmo hsrc hdst hfile hF hprog hrc hbits hseg hseg0 hmode hct
+      (by constructor
+          · have : j + 2 + r - 1 = j + 1 + r := by omega
+            rw [this]; exact hk.1
+          · exact hk.2) hcks hnull hlen hack rfl hsrcv hdstv hseqv
+  -- receiver
+  have hcrc : rcS.cks = 15 ∨ ∀ fs : Fs, fs.get dst = some (.file F) →
+      Fs.calcChecksum fs (Checksum.CksType.ofNat rcS.cks) dst F.length 4096 = .ok crc := by
+    right
+    intro fs hf
+    have := Checksum.C09.C09_chunk_length_irrelevant (Checksum.CksType.ofNat rcS.cks) F F.length seg 4096
+      (by omega) (by omega)
+    simp [Fs.calcChecksum, hnull, hf, ← this, hcks]
+  have haT : ∀ t, AdmissibleA ⟨envD.cfg, t⟩ rcD { conf with dir := .toRecv } := fun t =>
+    { hdir := rfl, hdst := ha.hdst, hsrc := ha.hsrc, hmode := ha.hmode }
+  have hchunks_ne : ∀ c ∈ (List.range j).map (fun i => (F.drop (0 + i * seg)).take seg), c ≠ [] := by
+    intro c hc
+    simp only [List.mem_map, List.mem_range] at hc
+    obtain ⟨i, hi, rfl⟩ := hc
+    intro h0
+    have := congrArg List.length h0
+    simp [List.length_take, List.length_drop] at this
+    have : i * seg ≤ j * seg := Nat.mul_le_mul_right _ (by omega)
+    omega
+  obtain ⟨d1, d2, d3, d4, d5, d6, d7, d8, hmd, hfeed, hgap, hfsg, heof, hq5, hdef, hq6, hret, hq7, hfa, hi8, hq8,
+      hfl8, hfile8, hother8, hinds8⟩ :=
+    C03_single_loss_recovery envD ⟨envD.cfg, nowD2⟩ ⟨envD.cfg, nowD3⟩ ⟨envD.cfg, nowD4⟩ d0
+      { conf with dir := .toRecv } { conf with dir := .toRecv } rcD s.p.closure rcS.cks src dst
+      (some (req.msgs.getD [])) F crc ((List.range j).map (fun i => (F.drop (0 + i * seg)).take seg))
+      (j * seg) ((j + 1) * seg) seg r maxSegs ccNoError tsActive
+      ha (haT nowD3) (haT nowD4) hackD hnak himm hmaxs hmax1 hidle hdq hdr hrej hfl hnd hok
+      (chunks_flatten F seg j) hchunks_ne hseg0 e3 hbF
+      (by rcases Nat.eq_zero_or_pos r with h0 | h0
+          · exact Or.inr h0
+          · left
+            have hr : r = (r - 1) + 1 := by omega
+            have : r * seg = (r - 1) * seg + seg := by rw [hr]; simp [Nat.add_mul]
+            have hm : min ((j + 1) * seg + seg) F.length = (j + 1) * seg + seg := by
+              have : seg ≤ r * seg := by rw [this]; omega
+              omega
+            rw [hm]; omega)
+      (by have : min ((j + 1) * seg + seg) F.length ≤ (j + 1) * seg + seg := Nat.min_le_left _ _
+          by_cases hc : (j + 1) * seg + seg ≤ F.length
+          · rw [Nat.min_eq_left hc]; omega
+          · have h2 : min ((j + 1) * seg + seg) F.length = F.length := by omega
+            rw [h2]; omega)
+      hcrc
+  -- the receiver's state after Metadata is the explicit one
+  obtain ⟨hmd', -⟩ := C02_metadata_ack envD d0 { conf with dir := .toRecv } rcD s.p.closure rcS.cks F.length src dst
+    (some (req.msgs.getD [])) ha hidle hdq hdr hrej hfl hnd hok
+  have hd1 : d1 = afterMdA envD d0 { conf with dir := .toRecv } rcD s.p.closure rcS.cks F.length src dst
+      (some (req.msgs.getD [])) := by
+    have := hmd.symm.trans hmd'
+    simpa using this
+  have hconf1 : d1.p.conf = cd := by rw [hd1]; simp [afterMdA, mdParamsA, cd]
+  rw [hconf1] at hq5 hq6 hq7
+  -- what the link delivers
+  have hdeliv : feedPdus envD
+      (([Source.mkMd conf s.p.closure rcS.cks F.length (some src) (some dst) (some (req.msgs.getD []))] ++
+        (List.range (j + 2 + r)).map (tile conf F seg 0) ++ [Source.mkEof conf ccNoError crc F.length]).eraseIdx (j + 1))
+      d0 = some d5 := by
+    have hlen : j < ((List.range (j + 2 + r)).map (tile conf F seg 0)).length := by simp; omega
+    rw [List.append_assoc, List.singleton_append, List.eraseIdx_cons_succ,
+      List.eraseIdx_append_of_lt_length hlen]
+    have hjr : j + 2 + r = j + 1 + (1 + r) := by omega
+    rw [hjr, map_range_eraseIdx, Nat.add_comm 1 r, range_succ_map]
+    have ht1 : tile conf F seg 0 (j + 1 + 0) =
+        .fd { conf with dir := .toRecv } ((j + 1) * seg) ((F.drop ((j + 1) * seg)).take seg) := by
+      simp [tile, Source.mkFd]
+    have hrest : (List.range r).map (fun i => tile conf F seg 0 (j + 1 + (i + 1))) =
+        (List.range r).map (tile conf F seg (min ((j + 1) * seg + seg) F.length)) := by
+      rcases Nat.eq_zero_or_pos r with h0 | h0
+      · subst h0; rfl
+      · have hr : r = (r - 1) + 1 := by omega
+        have : r * seg = (r - 1) * seg + seg := by rw [hr]; simp [Nat.add_mul]
+        have hm : min ((j + 1) * seg + seg) F.length = (j + 1) * seg + seg := by
+          have : seg ≤ r * seg := by rw [this]; omega
+          omega
+        rw [hm]
+        apply List.map_congr_left
+        intro i _
+        have : 0 + (j + 1 + (i + 1)) * seg = (j + 1) * seg + seg + i * seg := by simp [Nat.add_mul]; omega
+        simp [tile, this]
+    rw [ht1, hrest]
+    simp only [List.cons_append, feedPdus, Source.mkMd, hmd]
+    rw [feedPdus_append, feedPdus_append, feedPdus_tiles_eq_feed envD conf F seg j 0 d1 (by omega), hfeed]
+    simp only [Option.bind, feedPdus, hgap]
+    rw [feedPdus_tiles_eq_feedSeg envD conf F seg r _ d3
+      (by rcases Nat.eq_zero_or_pos r with h0 | h0
+          · exact Or.inl h0
+          · right
+            have hr : r = (r - 1) + 1 := by omega
+            have : r * seg = (r - 1) * seg + seg := by rw [hr]; simp [Nat.add_mul]
+            have : min ((j + 1) * seg + seg) F.length ≤ (j + 1) * seg + seg := Nat.min_le_left _ _
+            omega), hfsg]
+    simp only [Option.bind, feedPdus, Source.mkEof, heof]
+  -- the sender serves the NAK
+  have hadm : ∀ t, AdmissibleS ⟨envS.cfg, t⟩ s4 rcS cd := fun t =>
+    { hdir := rfl, hsrc := hsrcv, hrc := hW.hrc, hdst := hdstv,
+      hseq := by rw [hW.hconf],
+      hmode := by rw [hW.hconf]; simp [conf, startConf, hmode] }
+  have h5 := C03_sender_serves_request ⟨envS.cfg, now3⟩ s4 rcS cd req src F (j * seg) ((j + 1) * seg) 0 F.length
+    (hadm now3) hW.hbusy hW.hstep hW.hqueue hW.hreq hW.hsrc hW.hfile (by rw [hW.hseg]; exact hseg0)
+    (by rw [hW.hseg]; exact e3) (by rw [hW.hprog]; omega)
+  rw [hW.hseg, hW.hconf] at h5
+  have hlost : Source.mkFd conf (j * seg) ((F.drop (j * seg)).take seg) = lost := by simp [lost, tile]
+  rw [hlost] at h5
+  -- the Finished PDU at the sender, in its retransmission step
+  have hadm6 : AdmissibleS ⟨envS.cfg, now4⟩ (Source.C07.drained (retransS s4 [lost])) rcS cd :=
+    { hdir := rfl, hsrc := hsrcv, hrc := hW.hrc, hdst := hdstv,
+      hseq := by show cd.seq.val = s4.p.conf.seq.val; rw [hW.hconf],
+      hmode := by show s4.p.conf.mode = .ack; rw [hW.hconf]; simp [conf, startConf, hmode] }
+  have h6 := C03_sender_finished_after_retransmission ⟨envS.cfg, now4⟩ (Source.C07.drained (retransS s4 [lost])) rcS cd
+    fpOk req hadm6 hW.hbusy rfl rfl rfl hW.hreq
+  have h7 := C02_source_completion ⟨envS.cfg, now5⟩
+    (Source.C07.drained (afterFinS (waitFinS (Source.C07.drained (retransS s4 [lost]))) fpOk)) fpOk
+    ⟨envS.cfg.entityId, ⟨s.prov.next, s.prov.bits / 8⟩⟩ req hW.hbusy rfl rfl hW.hreq rfl hW.htid
+  have hlostfd : lost = .fd { conf with dir := .toRecv } (j * seg) ((F.drop (j * seg)).take ((j + 1) * seg - j * seg)) := by
+    have : (j + 1) * seg - j * seg = seg := by omega
+    simp [lost, tile, Source.mkFd, this]
+  refine ⟨_, s3, d5, s4, d6, _, d7, _, d8, _, hrun, ?_, hdeliv, ?_, h4, hW.hqueue, hdef, ?_, h5, rfl, ?_, ?_, h6, ?_, ?_, h7,
+    rfl, hi8, rfl, hq8, hfile8, hother8, ?_, hfl8, ?_, ?_, ?_⟩
+  · rw [List.append_assoc, List.singleton_append, List.getElem?_cons_succ,
+      List.getElem?_append_left (by simp; omega)]
+    rw [List.getElem?_map, List.getElem?_range (by omega)]
+    rfl
+  · simpa [Dest.mkAck, dtEof, dtFinished, cd] using hq5
+  · simpa [Dest.mkNak, cd] using hq6
+  · rw [hlostfd]; exact hret
+  · simpa [Dest.mkFin, cd, fpOk] using hq7
+  · show [Source.mkAck s4.p.conf dtFinished fpOk.cond tsActive] = _
+    rw [hW.hconf]
+  · simpa [Source.mkAck, dtFinished] using hfa
+  · simp [Source.C07.drained, afterFinS, waitFinS, retransS, hfs4]
+  · simp [Source.C07.drained, afterFinS, waitFinS, retransS, hfl4]
+  · simp only [Source.C07.drained, afterFinS, waitFinS, retransS, List.filter_append, hin4]
+    cases envS.cfg.indFinished <;> simp [isFinished]
+  · exact hinds8
+
+
 end Cfdp.C03
+
+/-! ## the hypotheses of the composed theorems are satisfiable (non-vacuity) -/
+
+namespace Cfdp.C03.Ex
+open Cfdp Cfdp.Dest Cfdp.C02
+
+def F : List UInt8 := [1, 2, 3, 4, 5]
+def rcD : RemoteCfg :=   -- the sender as the receiver knows it
+  { entityId := ⟨1, 2⟩, maxSeg := some 2, maxPkt := 256, closure := false, crc := false, mode := .ack,
+    cks := 3, ackMs := 1000, ackLim := 3, chkLim := 3, disp := false, imm := false, nakMs := 1000, nakLim := 3 }
+def rcS : RemoteCfg := { rcD with entityId := ⟨2, 2⟩ }   -- the receiver as the sender knows it
+def envS : Source.Env := ⟨⟨⟨1, 2⟩, true, true, true, true, [rcS], 1000⟩, 0⟩
+def envD : Dest.Env := ⟨⟨⟨2, 2⟩, true, true, true, true, [rcD], 1000⟩, 0⟩
+def req : Source.PutReq := ⟨⟨2, 2⟩, some "/a", some "/b", none, none, none⟩
+def s : Source.SrcSt :=
+  { state := .busy, putReq := some req, fs := [("/a", .file F)],
+    p := { remoteCfg := some rcS, conf := { ({} : Source.Params).conf with mode := .ack, dst := ⟨2, 2⟩ } } }
+def d0 : Dest.DestSt := { fs := [("/b", .file [9])] }
+
+
+/-- the state `s` is the one `put_request` produces from a new handler -/
+example : ∃ s', Source.putRequest envS req ({ fs := [("/a", .file F)] } : Source.SrcSt) = .ok true s' ∧
+    s'.state = s.state ∧ s'.step = s.step ∧ s'.putReq = s.putReq ∧ s'.p.remoteCfg = s.p.remoteCfg ∧
+    s'.p.conf.mode = s.p.conf.mode := by
+  refine ⟨_, rfl, ?_⟩
+  decide
+
+/-- **The hypotheses of `C03_end_to_end_single_loss` are satisfiable**: a 5-byte file, segment
+length 2 (three tiles), the first tile lost (`j = 0`, `r = 1`), CRC-32. -/
+example : True := by
+  have h := C03_end_to_end_single_loss envS envD s d0 req rcS rcD "/a" "/b" F [71, 11, 153, 244] 2 0 1 29
+    1 2 3 4 1 2 3
+    rfl rfl rfl rfl rfl rfl rfl rfl (by decide) rfl rfl rfl (by decide) (by decide) (by decide) rfl rfl
+    (by decide) (by decide +kernel) (by decide) rfl (by decide)
+    ⟨rfl, rfl, by decide, rfl⟩ (by decide) (by decide) rfl (by decide) (by decide)
+    rfl rfl rfl rfl rfl (by decide) (Or.inl ⟨[9], rfl⟩)
+  trivial
+
+/-- the hypotheses of `C02_end_to_end_ack` are satisfiable: the same transfer without a loss -/
+example : True := by
+  have h := C02_end_to_end_ack envS envD s d0 req rcS rcD "/a" "/b" F [71, 11, 153, 244] 2 3
+    1 2 3 1 2
+    rfl rfl rfl rfl rfl rfl rfl rfl (by decide) rfl rfl rfl (by decide) (by decide) (by decide) rfl rfl
+    (by decide) (by decide +kernel) (by decide) rfl (by decide)
+    ⟨rfl, rfl, by decide, rfl⟩ (by decide)
+    rfl rfl rfl rfl rfl (by decide) (Or.inl ⟨[9], rfl⟩)
+  trivial
+
+end Cfdp.C03.Ex
